@@ -2,11 +2,13 @@
   C16  Handler lifecycle: one active instance per name and context.
 
   Models: XsModel/Handler.lean (one instance), XsModel/Registry.lean (`startHandler`,
-  `compactStep`).  The announce-after-subscribe order is the order of `Handler::spawn`; the
+  `compactStep`), XsModel/ServeMulti.lean (the serve loop, all its instances and the clients on
+  one stream, any interleaving).  The announce-after-subscribe order is the order of `Handler::spawn`; the
   correspondence check observes it at the sync points handler.subscribed / handler.announce and
   the broadcast of `<name>.registered`.
 -/
 import XsProofs.ServeSys
+import XsProofs.ServeMulti
 namespace Xs.C16
 open Xs.Serve
 
@@ -141,5 +143,48 @@ example :
        .envAppend { topic := "h.register", ctx := 0, id := 8 }, .instStep, .instStep]
     (r.map (fun s => (s.st, s.pos, s.live.map (·.topic), decide (s.pos = (s.input cfg []).length)))) =
       some (HState.stopped, 4, ["a", "h.out", "h.register", "h.unregistered"], true) := by decide
+
+/-- the joint system (XsModel/ServeMulti.lean: clients append anything, the serve loop starts a
+    handler for every `.register` it gets to, every instance is handed its own subscription at
+    its own pace and writes back into the shared stream), any interleaving from the empty store:
+    of two instances of one name and context, the earlier one is stopped as soon as it has been
+    handed what there is - at most one instance per (context, name) stays active -/
+theorem at_most_one_active_instance (m : MCfg σ) (hparse : ParseOk m.parse) (hres : ResumeOk m.parse)
+    (as : List MAct) (s : MSys σ) (e : mrun m MSys.init as = some s)
+    (i j : Nat) (x y : Inst σ) (hi : s.insts[i]? = some x) (hj : s.insts[j]? = some y) (hij : i < j)
+    (hctx : x.cfg.ctx = y.cfg.ctx) (hname : x.cfg.name = y.cfg.name) (hcx : x.caughtUp m.thr s.stream) :
+    x.st = .stopped :=
+  one_running_per_key hparse hres (mrun_inv hparse (minv_init m) as e) i j x y hi hj hij hctx hname hcx
+
+/-- … and the one that is still running once it has been handed everything is the instance of the
+    latest registration: no later `.register` or `.unregister` of its name is stored in its
+    context -/
+theorem active_instance_is_latest_registration (m : MCfg σ) (hparse : ParseOk m.parse) (hres : ResumeOk m.parse)
+    (as : List MAct) (s : MSys σ) (e : mrun m MSys.init as = some s) (x : Inst σ) (hx : x ∈ s.insts)
+    (hrun : x.st = .running) (hc : x.caughtUp m.thr s.stream) :
+    ∀ f ∈ s.stream, f.ctx = x.cfg.ctx → isRegTraffic x.cfg f = true → f.id ≤ x.cfg.id :=
+  survivor_is_latest hres (mrun_inv hparse (minv_init m) as e) x hx hrun hc
+
+/-- a stopped instance processes nothing further: handing it a frame leaves the stream as it is -/
+theorem stopped_instance_writes_nothing (m : MCfg σ) (s s' : MSys σ) (i : Nat) (x : Inst σ)
+    (hi : s.insts[i]? = some x) (hst : x.st = .stopped) (e : mstep m s (.inst i) = some s') :
+    s'.stream = s.stream := stopped_emits_nothing i x hi hst e
+
+/-- non-vacuity of the joint system: two registrations of `h` in one context (the second a tail
+    handler), a trigger; the first instance (resuming from the start) answers its threshold marker and the
+    trigger, meets the second `.register` and stops; the second one answers what came after it
+    subscribed - the first one's stop announcement and a later trigger -/
+example :
+    let m : MCfg Unit := {
+      parse := fun r => .ok ({ id := r.id, ctx := r.ctx, name := "h" }, if r.id = 1 then .head else .tail),
+      eval := fun _ _ _ => ((), .ok [] (.value "1")), env0 := fun _ => (), thr := { topic := "xs.threshold", ctx := 0, id := 0 } }
+    let r := mrun m MSys.init [.client { topic := "h.register", ctx := 0, id := 0 }, .serve,
+      .client { topic := "a", ctx := 0, id := 0 }, .client { topic := "h.register", ctx := 0, id := 0 },
+      .inst 0, .inst 0, .inst 0, .inst 0, .serve, .serve, .serve, .serve, .inst 0, .inst 0,
+      .client { topic := "b", ctx := 0, id := 0 }, .inst 1, .inst 1, .inst 1]
+    r.map (fun s => (s.stream.map (fun f => (f.topic, f.id)), s.insts.map (fun x => (x.cfg.id, x.st, x.pos)))) =
+      some ([("h.register", 1), ("h.registered", 2), ("a", 3), ("h.register", 4), ("h.out", 5), ("h.out", 6),
+             ("h.registered", 7), ("h.unregistered", 8), ("b", 9), ("h.out", 10), ("h.out", 11)],
+            [(1, HState.stopped, 6), (4, HState.running, 3)]) := by decide
 
 end Xs.C16
